@@ -49,8 +49,10 @@ def run_one(case, r, seed, encoding="utf-8", variant="main"):
     if case.get("authalt"):
         auth.insert(r.randrange(len(auth) + 1), names["alt"])       # the same alternative spelling in the authorized list
     gamma.prime_related(case, keys, sigs, Q)
+    before = (twin_canon(env), list(auth), [id(x) for x in env["signatures"].values()])
     out, exc, printed = lib.call(auth_mod.verify_signable, env, auth, case["thr"], gpg=case["gpg"], encoding=encoding)
-    return {"variant": variant, "encoding": encoding, "observed": out, "exc": exc, "allowed": case["allowed"],
+    mutated = (twin_canon(env), list(auth), [id(x) for x in env["signatures"].values()]) != before
+    return {"variant": variant, "encoding": encoding, "observed": out, "exc": exc, "allowed": case["allowed"], "mutated": mutated,
             "concrete": {"envelope": env, "authorized": auth, "threshold": case["thr"], "gpg": case["gpg"]},
             "case": case}
 
@@ -87,7 +89,7 @@ def _work(args):
             res["n"] += 1
             if o["observed"] == "accept":
                 res["accepts"] += 1
-            if lib.family(o["observed"]) not in o["allowed"]:
+            if lib.family(o["observed"]) not in o["allowed"] or o.get("mutated"):
                 res["bad"].append(o)
         trivial = all(v[0] == "absent" for v in case["e"]) and case["alt"][0] == "absent" and case["junk"][0] == "absent"
         res["hashes"].append((hashlib.sha256(line.encode()).hexdigest()[:16], not trivial))
@@ -96,24 +98,28 @@ def _work(args):
     return res
 
 
-def batches(path, n=500):
+def batches(path, n=500, every=1):
     with open(path) as f:
+        i = 0
         while True:
             chunk = list(itertools.islice(f, n))
             if not chunk:
                 return
-            yield chunk
+            i += 1
+            if i % every == 0:
+                yield chunk
 
 
 def replay(run, tlc_result, opts=None, procs=16):
     """Stream TLC's case file through a pool; returns list of discrepancy observations."""
     opts = opts or {}
+    every = opts.get("every", 1)
     bad = []
     ctx = mp.get_context("fork")
     lib.cct("authentication")  # import (and path-assert) before forking
     accepts = 0
     with ctx.Pool(procs) as pool:
-        it = ((b, run.seed, opts) for b in batches(tlc_result.case_file))
+        it = ((b, run.seed, opts) for b in batches(tlc_result.case_file, every=every))
         for res in pool.imap_unordered(_work, it):
             run.evaluations += res["n"]
             accepts += res["accepts"]
@@ -124,7 +130,7 @@ def replay(run, tlc_result, opts=None, procs=16):
             for s in res["samples"]:
                 run.sample(s)
     run.extra["accepting_executions"] = run.extra.get("accepting_executions", 0) + accepts
-    run.traces_validated += max(0, tlc_result.ncases - len({json.dumps(o["case"], sort_keys=True) for o in bad}))
+    run.traces_validated += max(0, tlc_result.ncases // every - len({json.dumps(o["case"], sort_keys=True) for o in bad}))
     return bad
 
 
